@@ -334,8 +334,26 @@ def run_cv(case, out, mbi, dom, sizes):
         if pos: v = np.abs(v) + 1e-6
         return v
     V1 = {cl: mk(cl) for cl in cls}; V2 = {cl: mk(cl) for cl in cls}
-    X = CliqueVector({cl: Factor(dom.project(cl), V1[cl].copy()) for cl in cls})
-    Y = CliqueVector({cl: Factor(dom.project(cl), V2[cl].copy()) for cl in cls})
+    build = ['ctor', 'ctor', 'item_assign', 'caller_dict_edited'][(case['cv_seed'] // 7) % 4]
+
+    def mkcv(V):
+        # the three ways a caller arrives at the same vector: constructor; constructor with placeholders followed by
+        # item assignment; constructor, after which the caller re-uses (clears) the dict it passed in
+        if build == 'item_assign':
+            cv = CliqueVector({cl: Factor.zeros(dom.project(cl)) for cl in cls})
+            for cl in cls:
+                cv[cl] = Factor(dom.project(cl), V[cl].copy())
+            return cv
+        d = {cl: Factor(dom.project(cl), V[cl].copy()) for cl in cls}
+        cv = CliqueVector(d)
+        if build == 'caller_dict_edited':
+            for cl in cls:
+                d[cl] = Factor.zeros(dom.project(cl))
+            d[('__other__',)] = None
+        return cv
+    X = mkcv(V1)
+    Y = mkcv(V2)
+    out.classes.append('cv_build:' + build)
     if case['cv_seed'] % 2 and op in ('cv_add', 'cv_sub', 'cv_dot'):
         # the second operand holds the same functions, stored with reversed axis order under the same keys
         Y = CliqueVector({cl: Factor(dom.project(cl), V2[cl].copy()).transpose(tuple(reversed(cl))) for cl in cls})
